@@ -1,0 +1,20 @@
+/*
+ * Verification hook (compiled in only with -DTBOX_VERIF_HOOKS).
+ *
+ * TBOX_VERIF_POINT("name") marks a spot between two critical sections of
+ * multi-threaded code. With the guard on it calls tbox_verif_point(name) if a
+ * harness defines that (weak) symbol, so that a harness can inject a delay or
+ * a yield there. With the guard off it expands to nothing.
+ */
+#ifndef TBOX_BASE_VERIF_POINT_H_20261002
+#define TBOX_BASE_VERIF_POINT_H_20261002
+
+#ifdef TBOX_VERIF_HOOKS
+extern "C" void tbox_verif_point(const char *name) __attribute__((weak));
+# define TBOX_VERIF_POINT(name) \
+    do { if (tbox_verif_point != nullptr) tbox_verif_point(name); } while (0)
+#else
+# define TBOX_VERIF_POINT(name) ((void)0)
+#endif
+
+#endif //TBOX_BASE_VERIF_POINT_H_20261002
